@@ -14,6 +14,22 @@ func DepShapes(quick bool) []APoss {
 	_ = quick
 	archLists := [][]string{nil, {"amd64"}, {"amd64", "linux-any"}, {"kfreebsd-amd64"}, {"linux-any", "kfreebsd-amd64", "any-i386"}}
 	profs := [][][]AStage{nil, {{stg(false, "p")}}, {{stg(true, "p"), stg(false, "q")}}, {{stg(false, "p")}, {stg(true, "q")}}}
+	// alphabet audit: names a change introduced into the code appear as package name, qualifier, architecture,
+	// profile name and version text
+	for _, t := range AuditStrings(auditName, 4) {
+		names = append(names, t, t+"-x")
+		quals = append(quals, t)
+		archLists = append(archLists, []string{t}, []string{"amd64", t}, []string{t + "-any"}, []string{"any-" + t})
+		profs = append(profs, [][]AStage{{stg(false, t)}}, [][]AStage{{stg(true, t), stg(false, "q")}})
+	}
+	for _, t := range AuditStrings(Versionish, 4) {
+		if !hasByte(t, '-') || true {
+			vers = append(vers, t, "1."+t)
+		}
+	}
+	for _, t := range AuditIntStrings(0, 1<<62, 6) {
+		vers = append(vers, t)
+	}
 	return PossShapes(names, quals, ops, vers, archLists, profs)
 }
 
@@ -65,4 +81,23 @@ func DepFields(reps []APoss, maxPoss int) []ADep {
 	}
 	rec(nil, nil)
 	return out
+}
+
+// auditName: usable as a package / architecture / profile name in the grammar (starts alphanumeric, name characters only, no '-' so
+// that it is a single architecture component as well).
+func auditName(s string) bool {
+	if !Nameish(s) || hasByte(s, '-') || hasByte(s, '+') || hasByte(s, '.') {
+		return false
+	}
+	c := s[0]
+	return c >= 'a' && c <= 'z' || c >= '0' && c <= '9' || c >= 'A' && c <= 'Z'
+}
+
+func hasByte(s string, b byte) bool {
+	for i := 0; i < len(s); i++ {
+		if s[i] == b {
+			return true
+		}
+	}
+	return false
 }
